@@ -164,12 +164,16 @@ class Interp:
     # -- vectorisation ----------------------------------------------------------------
     def vec1(self, f, a):
         self.tick()
+        if isinstance(a, Fn):
+            raise Unmodelled("function used as a number")
         if is_list(a):
             return [self.vec1(f, x) for x in a]
         return f(a)
 
     def vec2(self, f, a, b):
         self.tick()
+        if isinstance(a, Fn) or isinstance(b, Fn):
+            raise Unmodelled("function used as a number")
         if is_list(a) and is_list(b):
             n = max(len(a), len(b))
             aa = a + [0] * (n - len(a))
@@ -447,6 +451,9 @@ class Interp:
             return Fn(0, [node])
         if k == "lam":
             return Fn(1 if node[1] is None else node[1], node[2])
+        if k == "mod" and node[1] in "⁽‡≬":
+            # these modifiers are parsed into a lambda structure, and a lambda operand is used as the function itself
+            return Fn(1, list(node[2]))
         return Fn(1, [node])
 
     def run_seq(self, seq, stack, pure=False):
